@@ -838,6 +838,11 @@ func GenModuli(LogNthRoot int, logQ, logP []int) (q, p []uint64, err error) {
 	primes := make(map[int][]uint64)
 	for bitsize, value := range primesbitlen {
 
+		// A prime congruent to 1 modulo 2^LogNthRoot has at least LogNthRoot bits (the generator starts at 2^bitsize+1)
+		if bitsize < LogNthRoot {
+			return nil, nil, fmt.Errorf("cannot GenModuli: bit-size=%d is smaller than LogNthRoot=%d", bitsize, LogNthRoot)
+		}
+
 		/* #nosec G115 -- bitsize cannot be negative */
 		g := ring.NewNTTFriendlyPrimesGenerator(uint64(bitsize), uint64(1<<LogNthRoot))
 
